@@ -145,6 +145,28 @@ def run (a : Auth Payload Key KSig Pool) :
 
 end
 
+/-! ### TTL validator (`TTLValidator.ValidateMessageTTLAt`) -/
+
+inductive TtlRes where
+  | ok | expired | tooFar
+deriving Repr, DecidableEq
+
+def maxU32 : Nat := 4294967295
+
+/-- `NewTTLValidator(d)`: the maximum TTL in whole seconds (`uint64(d.Seconds())`); a negative
+    duration is clamped to 0 and 0 means the 30-minute default. `ns` is the duration in ns. -/
+def ttlSeconds (ns : Int) : Nat := if ns ≤ 0 then 1800 else (ns / 1000000000).toNat
+
+/-- `ValidateMessageTTLAt(msg, now)` for a non-nil message; `nowUnix` is `now.Unix()`. -/
+def validateTTLAt (disabled : Bool) (maxTTL : Nat) (nowUnix : Int) (expiresAt : Nat) : TtlRes :=
+  if disabled then .ok
+  else if nowUnix > (maxU32 : Int) then .expired
+  else
+    let now : Nat := if nowUnix < 0 then 0 else nowUnix.toNat
+    if now > expiresAt then .expired
+    else if expiresAt > min (now + maxTTL) maxU32 then .tooFar
+    else .ok
+
 /-- `NewMessageAuthenticator` -/
 def newAuth : Auth Payload Key KSig Pool :=
   { disableValidation := false, pools := [], cache := [], slotsPerKesPeriod := 129600,
